@@ -288,6 +288,13 @@ class WeightDomain:
             return Adt(G, None, [a[0].fields[0], a[0].fields[1], W(form(), "one")])
         return NotImplemented
 
+    def recursive_call(self, ex, fk, args, term, fr):
+        """the adder calling itself with swapped operands: its summary"""
+        a = [deref_value(ex, x) for x in args]
+        if len(a) == 2 and all(isinstance(x, Adt) and x.name == G for x in a):
+            return self.point_add(ex, term, a[0], a[1])
+        return TOP
+
     def point_add(self, ex, term, p, q):
         """Summary of the general adder for callers: scale 3(s1+s2) (generic arm; special cases are degenerate paths)."""
         if isinstance(q, Adt) and q.name == G and isinstance(p.fields[2], W) and isinstance(q.fields[2], W):
@@ -460,6 +467,36 @@ def run_fn(F, body, args, inline=None):
     return dom, rs
 
 
+def implementation(repo, body, depth=0):
+    """A trait method that only hands its parameters, in order, to one crate-local function is analysed through that
+    function (`fn add(self, o) { self.add_impl(&o) }`)."""
+    from core.terms import strip
+    if depth > 3:
+        return body
+    rv = repo.tb(body).return_value()
+    if rv[0] == "call" and len(rv[2]) == body.arg_count and rv[1].d in repo.F.bodies and rv[1].d != body.rec["path"]:
+        ok = all(strip(a) in (("param", i + 1), ("init", ("deref", i + 1))) for i, a in enumerate(rv[2]))
+        tgt = repo.F.bodies[rv[1].d]
+        if ok and (tgt.rec.get("span") or {}).get("file") == (body.rec.get("span") or {}).get("file"):
+            return implementation(repo, tgt, depth + 1)
+    return body
+
+
+def expand_option(v, pc=()):
+    """An Option whose Some-ness still hangs on `x is zero` stands for both outcomes: [(value, extra path condition)]."""
+    if isinstance(v, Adt) and v.name == "core::option::Option" and isinstance(v.variant, tuple) and v.variant and v.variant[0] == "?":
+        w = v.variant[1]
+        return [(Adt(v.name, "None", []), tuple(pc) + (("is_zero", w.vid, dict(w.f), w.cls, True),)),
+                (Adt(v.name, "Some", list(v.fields)), tuple(pc) + (("is_zero", w.vid, dict(w.f), w.cls, False),))]
+    return [(v, tuple(pc))]
+
+
+def by_sig(body, vals):
+    """arguments for run_fn / wrun according to the by-value / by-reference signature of `body`"""
+    ins = body.rec.get("inputs") or []
+    return [("byref", v) if i < len(ins) and ins[i].strip().startswith("&") else v for i, v in enumerate(vals)]
+
+
 def find(F, pred):
     bs = [b for b in F.fn_bodies() if pred(b)]
     return bs
@@ -484,7 +521,8 @@ def rule_weight_group(prop, repo):
     b = get("<crate::groups::G<P> as core::ops::Add>::add")
     if b:
         R.instance()
-        dom, rs = run_fn(F, b, [gpoint("s1"), gpoint("s2")])
+        b = implementation(repo, b)
+        dom, rs = run_fn(F, b, by_sig(b, [gpoint("s1"), gpoint("s2")]))
         ks = []
         bad = []
         for v, _ in rs:
@@ -520,7 +558,7 @@ def rule_weight_group(prop, repo):
         dom, rs = run_fn(F, b, [gpoint("s")])
         bad = []
         somes = 0
-        for v, _ in rs:
+        for v, _ in [x for v0, fr0 in rs for x in expand_option(v0)]:
             if isinstance(v, Adt) and v.variant == "Some":
                 somes += 1
                 lv = leaves(v.fields[0], [])
